@@ -42,7 +42,7 @@ import (
 // Sizes of the L2 part (scenario counts, never durations).
 const (
 	L2QuickScenarios    = 12
-	L2ThoroughScenarios = 150
+	L2ThoroughScenarios = 450
 	// L2MinDistinct is the floor the L2 part adds to the distinct non-trivial
 	// shapes of the run (quick tier).
 	L2MinDistinct  = 8
